@@ -258,6 +258,25 @@ type c18SkipCase struct {
 	Random []byte `json:"random"` // arbitrary bytes for the totality half
 }
 
+// lenVarint encodes a length / count, one time in five with a padded
+// (non-minimal but valid) varint such as 83 00 for 3.
+func lenVarint(t *rapid.T, b []byte, v uint64) []byte {
+	if rapid.IntRange(0, 4).Draw(t, "padded") != 0 {
+		return binary.AppendUvarint(b, v)
+	}
+	enc := binary.AppendUvarint(nil, v)
+	if len(enc) >= 9 {
+		return append(b, enc...)
+	}
+	enc[len(enc)-1] |= 0x80
+	pad := rapid.IntRange(1, 2).Draw(t, "pad")
+	for i := 1; i < pad; i++ {
+		enc = append(enc, 0x80)
+	}
+	enc = append(enc, 0x00)
+	return append(b, enc...)
+}
+
 func genWellFormed(t *rapid.T, wt int) []byte {
 	switch wt {
 	case vh.WTVarInt:
@@ -268,18 +287,18 @@ func genWellFormed(t *rapid.T, wt int) []byte {
 		return rapid.SliceOfN(rapid.Byte(), 4, 4).Draw(t, "f32")
 	case vh.WTLength:
 		n := pickInt(t, "len", []int{0, 1, 2, 5, 127, 128, 129, 300})
-		b := binary.AppendUvarint(nil, uint64(n))
+		b := lenVarint(t, nil, uint64(n))
 		return append(b, rapid.SliceOfN(rapid.Byte(), n, n).Draw(t, "body")...)
 	default: // WTSlice
 		cnt := pickInt(t, "count", []int{0, 1, 2, 3, 5, 127, 128, 129, 300})
-		b := binary.AppendUvarint(nil, uint64(cnt))
+		b := lenVarint(t, nil, uint64(cnt))
 		for i := 0; i < cnt; i++ {
 			lens := []int{0, 1, 3, 127, 128}
 			if cnt > 5 {
 				lens = []int{0, 1, 2}
 			}
 			n := pickInt(t, "elen", lens)
-			b = binary.AppendUvarint(b, uint64(n))
+			b = lenVarint(t, b, uint64(n))
 			b = append(b, rapid.SliceOfN(rapid.Byte(), n, n).Draw(t, "ebody")...)
 		}
 		return b
